@@ -48,8 +48,22 @@ def _messages(res, msgs, family):
             raise lib.ToolFailure(f"driver: {ans[2*k]}")
         f = F()
         reg = F.INIT_FCS_16
-        for byte in m:
+        r_ref = 0xFFFF          # independent bit-serial register, to judge what is observed *between* updates
+        observe = (k % 2 == 0)
+        for pos, byte in enumerate(m):
             reg = f.update(byte)
+            if observe:
+                for i in range(8):
+                    r_ref = (r_ref >> 1) ^ 0x8408 if (r_ref ^ (byte >> i)) & 1 else r_ref >> 1
+                try:
+                    seen = (bool(f.is_good), int(f.checksum), int(reg))
+                except Exception as ex:  # noqa
+                    seen = type(ex).__name__
+                want = (r_ref == 0xF0B8, r_ref ^ 0xFFFF, r_ref)
+                if seen != want:
+                    res.prop_failure({"op": "fcs.msg", "hex": m[:pos + 1].hex(), "start": 0, "len": pos + 1, "observe_each": True},
+                                     f"after update #{pos + 1} on one object (is_good, checksum, register) = {seen}, RFC 1662 gives {want}", family)
+                    break
         try:
             comp = str(F.compute_checksum(m, st, ln))
         except Exception as ex:  # noqa
